@@ -11,7 +11,8 @@ SPEC = {
                      'theories/Wire/Msgpack.v', 'theories/Wire/MsgpackProofs.v', 'theories/Wire/MsgpackRT.v',
                      'theories/Wire/Cbor.v', 'theories/Wire/CborFloat.v', 'theories/Wire/CborProofs.v', 'theories/Wire/CborEnc.v', 'theories/Wire/CborTime.v',
                      'theories/C10/CborSpec.v', 'theories/C10/CborConv.v',
-                     'theories/Wire/Binc.v', 'theories/Wire/BincProofs.v'],
+                     'theories/Wire/Binc.v', 'theories/Wire/BincProofs.v',
+                     'theories/C07/Model.v'],
     'harness': 'c01',
     'args': {
         'quick': ['-model', 600, '-oracle', 4000],
